@@ -798,7 +798,7 @@ class InHeadPhase(Phase):
         (("noframes", "style"), startTagNoFramesStyle),
         ("noscript", startTagNoscript),
         ("script", startTagScript),
-        (("base", "basefont", "bgsound", "command", "link"),
+        (("base", "basefont", "bgsound", "link"),
          startTagBaseLinkCommand),
         ("meta", startTagMeta),
         ("head", startTagHead)
@@ -1572,7 +1572,7 @@ class InBodyPhase(Phase):
 
     startTagHandler = _utils.MethodDispatcher([
         ("html", Phase.startTagHtml),
-        (("base", "basefont", "bgsound", "command", "link", "meta",
+        (("base", "basefont", "bgsound", "link", "meta",
           "script", "style", "title"),
          startTagProcessInHead),
         ("body", startTagBody),
